@@ -21,6 +21,8 @@ package main
 
 import (
 	"fmt"
+
+	"github.com/osteele/liquid"
 )
 
 var condStream = ctlStream{Name: "cond", Prop: "C10"}
@@ -216,9 +218,48 @@ func buildDuality(f []string) *ctlCase {
 	return nil
 }
 
+type condFlag bool
+type condCount int
+type condLabel string
+
+// condDefinedTypesFamily: bindings of DEFINED bool / int / string types (outside the value codec, so judged by the
+// oracle alone): whatever truth value the engine gives them, `if c A else B` and `unless c B else A` agree, a case on
+// them selects one clause, and `and` / `or` / the filter `default` agree with `if` about their truth.
+func condDefinedTypesFamily(r *Run) {
+	type rec struct{ Off condFlag }
+	vals := map[string]any{"off": condFlag(false), "on": condFlag(true), "zero": condCount(0), "n": condCount(3), "empty": condLabel(""), "lab": condLabel("x"),
+		"rec": rec{Off: false}, "m": map[string]any{"off": condFlag(false), "on": condFlag(true)}, "arr": []any{condFlag(false), condFlag(true)}, "parr": []condFlag{false, true}}
+	conds := []string{"off", "on", "zero", "n", "empty", "lab", "rec.Off", "m.off", "m.on", "arr[0]", "arr[1]", "parr[0]", "parr.last", "off and on", "off or on", "on and off",
+		"off == false", "on == true", "off != on", "nope"}
+	render := func(src string) string {
+		return guard(func() string {
+			out, err := liquid.NewEngine().ParseAndRenderString(src, vals)
+			if err != nil {
+				return "err"
+			}
+			return "ok " + out
+		})
+	}
+	for _, c := range conds {
+		a := render("{% if " + c + " %}A{% else %}B{% endif %}")
+		b := render("{% unless " + c + " %}B{% else %}A{% endunless %}")
+		r.Count("defined-types-duality")
+		if a != b {
+			r.Violate("C10", "if-unless-duality", "cond-defined-types "+hexField(c), fmt.Sprintf("condition %q of a defined Go type: if/else renders %q, unless/else renders %q", c, a, b))
+		}
+		e := render("{% if " + c + " %}A{% elsif true %}B{% endif %}")
+		if a != e {
+			r.Violate("C10", "first-truthy-branch", "cond-defined-types-elsif "+hexField(c), fmt.Sprintf("condition %q: if/else renders %q but if/elsif true renders %q", c, a, e))
+		}
+	}
+}
+
 func runCondStream(r *Run) {
 	s := condStream
 	u := condUniverse()
+	if r.Shard == 0 {
+		condDefinedTypesFamily(r)
+	}
 	r.Stats.Notes["universe"] = fmt.Sprint(len(u))
 	do := func(spec string) {
 		if r.Mine() {
